@@ -35,6 +35,76 @@ pub fn run(rep: &mut Rep) {
         let d = if k == 0 { depth } else { depth - 1 };
         explore_world(rep, &format!("exh{k}"), d, &move || World::boot(WorldCfg { seed, seed_ids: ids, ..Default::default() }), &a);
     }
+    // a lagging stream with a large backlog (before SUBACK / before stream() / taken but not polled)
+    let backlogs: Vec<usize> = if rep.quick() { vec![1026, 3000] } else { vec![1023, 1024, 1025, 1026, 1027, 2048, 4097, 10000, 70000] };
+    rep.note(&format!("backlog: {:?} messages routed to one stream while it is not polled (x 3 moments: before SUBACK, before stream(), stream taken but idle), a second stream keeps being read", backlogs));
+    let mut bidx = 50_000_000u64;
+    for &n in &backlogs {
+        for when in 0..3u8 {
+            let id = format!("backlog:{n}:{when}");
+            bidx += 1;
+            if !rep.take(bidx, &id) {
+                continue;
+            }
+            let mut w = World::boot(WorldCfg { seed: rep.seed, ..Default::default() });
+            w.sim.log_enabled = false;
+            let a_op = w.start(0, Kind::Sub);
+            let b_op = w.start(1, Kind::Sub);
+            w.settle_check();
+            w.deliver_ack(b_op, 1, 0, 0);
+            w.settle_check();
+            w.take_stream(b_op);
+            if when >= 1 {
+                w.deliver_ack(a_op, 1, 0, 0);
+                w.settle_check();
+            }
+            if when == 2 {
+                w.take_stream(a_op);
+                let s = w.m[a_op].stream.unwrap();
+                w.sim.streams[s].held = true;
+            }
+            let (sa, sb) = (w.sub_id_of(a_op).unwrap_or(1), w.sub_id_of(b_op).unwrap_or(2));
+            w.light = true;
+            for k in 0..n {
+                let q = (k % 3) as u8;
+                let both = [sa, sb];
+                let one = [sa];
+                w.in_publish(q, 1 + (k % 60000) as u16, false, if k % 5 == 0 { &both[..] } else { &one[..] }, false);
+                if q == 2 {
+                    w.in_pubrel(1 + (k % 60000) as u16);
+                }
+                if k % 64 == 0 {
+                    w.settle();
+                }
+            }
+            w.light = false;
+            w.settle_check();
+            if when == 0 {
+                w.deliver_ack(a_op, 1, 0, 0);
+                w.settle_check();
+            }
+            if when <= 1 {
+                w.take_stream(a_op);
+            } else {
+                let s = w.m[a_op].stream.unwrap();
+                w.sim.streams[s].held = false;
+                std::task::Wake::wake_by_ref(&w.sim.streams[s].w);
+            }
+            w.settle_check();
+            // the stream is still attached: one more message must arrive
+            w.in_publish(0, 0, false, &[sa], false);
+            w.settle_check();
+            finish(&mut w);
+            rep.add("evaluations", 1);
+            rep.add("backlog_cases", 1);
+            rep.add("backlog_messages", n as i64);
+            rep.distinct(&("backlog", n, when));
+            if super::harvest(rep, &mut w, &id) == 0 {
+                rep.sample(|| format!("{id}: {n} messages buffered for an idle stream, all yielded in order afterwards"));
+            }
+            super::add_counters(rep, &w);
+        }
+    }
     let mut wa = a.clone();
     wa.max_ops = 12;
     wa.max_conc = 4;
